@@ -148,6 +148,9 @@ CallSpec noise_call(RunCtx& ctx, Rng& rng, std::string& what)
         c.backend = rng.chance(0.8) ? B_DOC : B_BUILDER;
     c.sched = ctx.draw_sched(rng, false);
     c.ceiling = default_ceiling(c.bytes.size());
+    // the other client's parse may be abandoned by an exception that is not a TypeException, deep inside the grammar
+    if (rng.chance(0.08))
+        c.alloc_fail_at = 1 + (int64_t)rng.below(1u << rng.range(3, 12));
     return c;
 }
 
